@@ -40,10 +40,12 @@ from torchphysics.utils import grad as tp_grad
 from vf.core import CaseAborted
 
 PROPERTY = "C14"
-RULE = ("Hypothesis draws a pool spec - 1-2 x-intervals, one t-interval, 2-4 deterministic "
-        "x-samplers (GridSampler / DataSampler built from a user dict / a user-defined sequence "
-        "sampler whose k-th draw is a shifted grid, always wrapped static; 2-5 points; ~2/3 "
-        "static, resample interval inf/1/2/3), 1-3 data functions f(x, t=<tensor default>) "
+RULE = ("Hypothesis draws a pool spec - 1-2 x-intervals, one t-interval, 2-4 x-sampler OBJECTS "
+        "(GridSampler / ExponentialIntervalSampler with exponent 0.5, 2 or 3 / RandomUniformSampler "
+        "with n_points, never as sampler #0 / DataSampler built from a user dict / a user-defined "
+        "sequence sampler whose k-th draw is a shifted grid, always wrapped static; 2-5 points; ~2/3 "
+        "static = ONE StaticSampler wrapper per pool sampler, resample interval inf/1/2/3; the raw "
+        "sampler under the wrapper is a pool object of its own), 1-3 data functions f(x, t=<tensor default>) "
         "(plain or UserFunction-wrapped), 1-3 data-function dicts over the names f,g (both key "
         "orders), 0-2 Parameters, 1-2 residual functions with mutable defaults (list or tensor, "
         "optional derivative term), 1-2 FCN models per input space, 1-2 DeepONets (their "
@@ -54,7 +56,17 @@ RULE = ("Hypothesis draws a pool spec - 1-2 x-intervals, one t-interval, 2-4 det
         "IntegroPINNCondition, PeriodicCondition (A: periodic x-interval from the pool, default "
         "EmptySampler; B: periodic t-interval + pool x-sampler), PIDeepONetCondition; objects "
         "are named by index modulo pool size, so sharing is frequent; data_functions / parameter "
-        "are omitted in a share (constructor defaults). Evaluation passes iteration=None "
+        "are omitted in a share (constructor defaults). prod=m (1-3, in ~1/2 of the construct ops; "
+        "kinds pinn/mean/ritz/single/adaptive) makes the condition use the product sampler "
+        "`raw sampler #i * GridSampler(t-interval, m)` (raw grid / exponential / random sampler as "
+        "the FIRST factor, the m-point partner is a pool object too; wrapped in the condition's own "
+        "StaticSampler if pool sampler #i is static) with the x-t model, so one sampler object is a "
+        "product factor in one condition and used alone (or under its static wrapper, or as a "
+        "DeepONet discretisation / integral / non-periodic sampler) in others, in every order of "
+        "construction and evaluation; ~400 pinned histories enumerate that pattern for every "
+        "shareable sampler kind. torch's RNG is seeded with the same number (spec rng + op count) "
+        "right before the twin's and the real condition's constructor / forward call, so random "
+        "samplers draw the same points for both. Evaluation passes iteration=None "
         "(default, what Solver.validation_step does) or a Solver-like step counter (each "
         "condition at most once per iteration value). Flags: own_dicts (every condition gets "
         "its own copy of the dict, so the other sharing channels are explored behind D14), "
@@ -62,19 +74,36 @@ RULE = ("Hypothesis draws a pool spec - 1-2 x-intervals, one t-interval, 2-4 det
         "cases every kind except pinn/adaptive becomes PIDeepONet resp. Periodic so that several "
         "of them meet). After the history "
         "every live condition is evaluated once more. Oracles after every op: real loss == "
-        "isolated twin's loss (1e-6 rel); every dict handed to a constructor keeps its keys and "
+        "isolated twin's loss (1e-6 rel; not for a condition on a SHARED StaticSampler around a "
+        "random sampler, which legitimately keeps the points of whoever drew first) and the shape "
+        "of what the residual function receives (number of points) == the twin's, for every "
+        "condition; every dict handed to a constructor keeps its keys and "
         "the identical value objects; data/residual functions' default objects, DataSampler "
         "input dicts, Parameter values, constructor default arguments and (at the end) model "
-        "weights are unchanged; every evaluation of a static-sampler condition equals its first; "
+        "weights are unchanged; every evaluation of a static-sampler condition equals its first "
+        "(random sampler: only with resample interval inf); "
         "periodic: the f_left/f_right (g_left/g_right) tensors received by the spying residual "
         "equal the data function computed by the harness at the left / right end. Non-trivial: "
         ">= 2 successfully constructed conditions share at least one pool object and one of them "
-        "has a static sampler and a non-empty data-function dict, and both were evaluated. "
+        "has a static sampler and a non-empty data-function dict, and both were evaluated; or a "
+        "sampler object is the first factor of a product sampler with m > 1 in one evaluated "
+        "condition and used by another evaluated condition. "
         "Distinct = spec hash without the rng seed.")
 ASSUMPTIONS = [
-    "all samplers are deterministic functions of their own draw count (grid, data, static); the "
+    "grid, exponential-interval, data and sequence samplers are deterministic functions of their "
+    "own draw count; a RandomUniformSampler is a deterministic function of torch's RNG state, which "
+    "the harness sets to the same value before the real and the twin call of an op (pool objects are "
+    "built before the seeding, so lazily initialised model weights do not shift the stream); the "
     "sequence sampler (k-th draw = grid shifted by 0.37*(k-1)) is only used inside a StaticSampler "
     "with infinite resample interval, so its first draw is what every sharer and every twin sees",
+    "left out of the generator because the unmodified library already interferes there (reported, "
+    "not judged): a StaticSampler OBJECT used as a product factor in one condition and alone in "
+    "another (it caches whichever point set - x only or x,t with n*m rows - was drawn first); "
+    "samplers defined by a density (len() raises until someone sampled them once: documented); "
+    "DataSampler (debug prints with partner rows) and the sequence sampler (ignores partner rows) "
+    "are never product factors; a DeepONet is never discretised on a random sampler",
+    "a deviating number of points and a deviating loss are one deviation from the isolated twin: "
+    "both are reported as twin-mismatch:<channel>",
     "no optimisation step occurs in a history; model weights are set from a torch.Generator seeded "
     "by spec['rng'] + index, so a fresh pool reproduces them exactly",
     "evaluation with an iteration number follows the Solver: increasing numbers, each condition at "
@@ -241,7 +270,8 @@ def _e(c, it="none", twice=False):
 
 def extra_cases(tier, seed):
     """Pinned histories: every kind twice on the same objects next to a static PINN condition with
-    the same dict (shared and own dicts), and the three patterns of the known defects."""
+    the same dict (shared and own dicts), the three patterns of the known defects, and one sampler
+    object as a product factor in one condition and alone in another (every order)."""
     rng = 4000 + seed % 1000
     for own in (False, True):
         for kind in KINDS:
